@@ -21,19 +21,26 @@ ANCHOR_FILES = ['proxy/core/event/dispatcher.py', 'proxy/core/event/queue.py', '
 RULE = ('cases = histories (<= 25 operations) of subscribe(id, channel) / unsubscribe(id) (incl. repeated and unknown ids) / '
         'publish / break(channel, exception kind) over 1..3 subscribers (own id and channel each: kind wf*), over arbitrary '
         'id/channel pairings with shared channels and re-bound ids (kind shared*), a break inserted at every position of template '
-        'histories (kind breakpos), and histories with channels raising non-OSError exceptions (kind escape*); each is run through '
-        'handle_event call by call (…steps) or through the real run() loop with a scripted queue (…run). '
-        'A case is non-trivial when at least one published event was delivered to a channel; distinct = distinct histories')
+        'histories (kind breakpos*), histories with channels raising non-OSError exceptions (kind escape*, separate malformed '
+        'stream) and histories in which queue.get() itself fails (kind qerr-run, known finding); each is run through '
+        'handle_event call by call (*-steps) or through the real run() loop with a scripted queue (*-run). Compared with the '
+        'model: per-call outcome, subscriber table in dict order, and per channel object the messages received and the number of '
+        'close() calls; for *-steps cases the Python reference used as oracle is additionally compared with the Coq reference '
+        '`view` (CView). A case is non-trivial when at least one published event was delivered to a channel; distinct = distinct histories')
 TRUSTED = ['scripted channel objects behave like multiprocessing.connection.Connection: send raises the scripted exception once '
            'broken and OSError("handle is closed") after close(); probed on every run with real multiprocessing.Pipe() histories '
            '(reader end closed => BrokenPipeError) in extra_checks',
-           'FIFO delivery of the multiprocessing.Queue feeding run_once() (publication order = queue order) is not modelled',
-           'the per-channel reference (expected_view) written in this module is the executable statement of the property used as oracle']
-ASSUMPTIONS = ['conn.send raises only OSError subclasses or EOFError when the peer is gone (C18_total, C18_exactly_once_in_order, '
-               'C18_isolation assume it: histories with no Break _ OtherErr); any other exception type escapes handle_event '
-               '(C18_other_escapes)',
+           'FIFO delivery of the multiprocessing.Queue feeding run_once() (publication order = queue order) is not modelled; '
+           'thorough tier runs a live EventManager with two EventSubscribers as supporting evidence',
+           'the per-channel reference expected_view (oracle) is cross-validated on every run against the Coq function `view`, '
+           'which Theorem C18_view proves equal to the model for every history']
+ASSUMPTIONS = ['conn.send raises only OSError subclasses or EOFError when the peer is gone (premise no_other of the theorems); '
+               'any other exception type escapes handle_event (Theorem C18_other_escapes)',
                'a published event never has event_name SUBSCRIBE or UNSUBSCRIBE',
-               'model and theorems describe dispatcher.py with proposed_fixes/C18-oserror-stops-dispatcher.diff applied']
+               'every queue item can be received: queue.get() raises nothing but queue.Empty (otherwise known finding '
+               'C18-dead-subscriber-unpickle, Theorem C18_queue_failure_refuted)',
+               'model and theorems describe dispatcher.py with proposed_fixes/C18-oserror-stops-dispatcher.diff applied; '
+               'the tree before it is refuted by Theorem C18_original_refuted']
 SHARD = 200
 
 KINDS = ('bp', 'eof', 'os', 'other')
@@ -260,7 +267,15 @@ def coq_term(case, out):
         return 'CRunQ %s %d %d %s %s' % (hq, out['raised'], out['consumed'], subs, chs)
     if case.get('mode') == 'run':
         return 'CRun %s %d %d %s %s' % (h, out['raised'], out['consumed'], subs, chs)
-    return 'CSteps %s %s %s %s' % (h, C.coq_list(str(x) for x in out['outs']), subs, chs)
+    t = 'CSteps %s %s %s %s' % (h, C.coq_list(str(x) for x in out['outs']), subs, chs)
+    if has_other(case['ops']):
+        return t
+    # the Python reference (oracle) against the Coq reference `view`
+    exp = []
+    for c in range(case['nchan']):
+        r, closes, _ = expected_view(case['ops'], c)
+        exp.append('(%d, (%d, %s))' % (c, closes, C.coq_list(coq_msg(m) for m in r)))
+    return [t, 'CView %s %s' % (h, C.coq_list(exp))]
 
 
 def model_expr(case):
@@ -511,18 +526,36 @@ def generate(rng, tier):
     return cases
 
 
+def _category(msg):
+    return ' '.join(str(msg).split()[:4]) if msg else None
+
+
 def shrink(case, fails):
+    """drop operations one at a time while the same kind of failure remains"""
     cur = dict(case)
+    try:
+        cat0 = _category(oracle(cur, run_impl(cur)))
+    except Exception:   # noqa
+        cat0 = None
+    def still(t):
+        if not fails(t):
+            return False
+        if cat0 is None:
+            return True
+        try:
+            return _category(oracle(t, run_impl(t))) == cat0
+        except Exception:   # noqa
+            return False
     changed = True
     while changed:
         changed = False
         for i in range(len(cur['ops'])):
             t = dict(cur, ops=cur['ops'][:i] + cur['ops'][i + 1:])
             try:
-                if fails(t):
+                if still(t):
                     cur = t; changed = True
                     break
-            except Exception:
+            except Exception:   # noqa
                 pass
     return cur
 
@@ -747,6 +780,9 @@ def live_manager_fifo(n=200):
         for i in range(n // 2):
             em.queue.publish(str(i), eventNames.WORK_STARTED, {'i': i}, 'C18-live')
         # subscriber 2 disappears without unsubscribing
+        t0 = time.time()
+        while len(got2) < n // 4 and time.time() - t0 < 10:
+            time.sleep(0.02)
         s2.relay_shutdown.set(); s2.relay_thread.join(); s2.relay_recv.close(); s2.relay_send.close()
         for i in range(n // 2, n):
             em.queue.publish(str(i), eventNames.WORK_STARTED, {'i': i}, 'C18-live')
